@@ -229,6 +229,7 @@ class DoctestPart:
         success = False
 
         exceptions = []
+        repr_errors = []
         for i in range(1, len(trailing_gots) + 1):
             # Try the i-th trailing sequence
             got_ = ''.join(trailing_gots[-i:])
@@ -236,11 +237,17 @@ class DoctestPart:
                 checker.check_got_vs_want(part.want, got_, got_eval, runstate)
             except checker.GotWantException as ex:
                 exceptions.append(ex)
+            except checker.ExtractGotReprException as ex:
+                # The value cannot be rendered, but a longer trailing sequence
+                # of the output may still satisfy the want.
+                repr_errors.append(ex)
             else:
                 success = True
                 break
 
         if not success:
+            if repr_errors:
+                raise repr_errors[0]
             # for ex in exceptions:
             #     print(ex.output_difference())
             #     print(ex.output_repr_difference())
